@@ -90,7 +90,7 @@ for d in sorted(glob.glob(f"{ROOT}/benign/*/")):
     except Exception:
         m = {}
     r = bres.get(f"benign/{name}/patch.diff", ("not run", ""))
-    verdict = {"MISSED": "silent", "CAUGHT": "ALARM " + r[1]}.get(r[0], r[0])
+    verdict = {"MISSED": "silent" + (" (" + r[1] + ")" if r[1] else ""), "CAUGHT": "ALARM " + r[1]}.get(r[0], r[0])
     what = (m.get("what", "") or "")[:300].replace("|", "\\|").replace("\n", " ")
     parts.append(f"| {name} | {what} | {verdict} |")
 parts.append("")
